@@ -67,3 +67,22 @@ Print Assumptions corrupt_front_is_abandoned.
 Theorem corrupt_is_decidable : forall msg parse c s, corruptb msg parse c s = true -> corrupt msg parse c s.
 Proof. exact corruptb_corrupt. Qed.
 Print Assumptions corrupt_is_decidable.
+
+(* ---------- the concrete parser ---------- *)
+From Indi Require Import Buffer.Run Buffer.Concrete Msg.Registry Msg.Equality Generated.RegistryData.
+
+(* for the real parser (XML model, message model, live registry) the parser premise above is a theorem:
+   junk free of known-tag openers is silent and stays junk, with nothing assumed *)
+Theorem benign_junk_alone_is_silent_for_the_concrete_parser : forall thr X,
+  opener_free (rbuffer_tags live_registry) X ->
+  snd (process msg concrete_parse (rbuffer_tags live_registry) thr X) = [] /\
+  opener_free (rbuffer_tags live_registry) (snd (fst (process msg concrete_parse (rbuffer_tags live_registry) thr X))).
+Proof. exact (fun thr X => junk_only_silent msg concrete_parse (rbuffer_tags live_registry) thr X concrete_parse_needs_opener). Qed.
+Print Assumptions benign_junk_alone_is_silent_for_the_concrete_parser.
+
+Theorem benign_junk_is_transparent_for_the_concrete_parser : forall thr X y',
+  opener_free (rbuffer_tags live_registry) X ->
+  process msg concrete_parse (rbuffer_tags live_registry) thr (X ++ LT :: y') =
+  process msg concrete_parse (rbuffer_tags live_registry) thr (LT :: y').
+Proof. exact (fun thr X y' => junk_prefix_transparent msg concrete_parse (rbuffer_tags live_registry) thr X y' live_tags_clean). Qed.
+Print Assumptions benign_junk_is_transparent_for_the_concrete_parser.
